@@ -10,6 +10,9 @@ from .formats_common import cps
 
 GEN_UNITS = ["ShaCrypt", "B64", "Handlers", "PyUnicode", "FormatDigests", "FormatParsers"]
 LEAN_TARGETS = ["PasslibVerif.Props.C01", "PasslibVerif.Props.C01Crypt"]
+#: per-family end-to-end instantiations (hasher = C07 parser/renderer + Spec checksum): (corr module, Props module, suite name)
+FAMILIES = [("c01_pbkdf", "PasslibVerif.Props.C01Pbkdf", "pbkdf-family-hash-verify-model")]
+LEAN_TARGETS += [f[1] for f in FAMILIES]
 ASSUMPTIONS = [
     "that two secrets which differ outside a format's documented equivalences have different checksums is collision resistance of the digest primitives — not a theorem; "
     "it is explored on the real code with near-miss secrets",
@@ -246,7 +249,15 @@ def correspond(ctx):
     o = Oracle(ctx, "all-hashers-hash-verify")
     model_suite(ctx, s_m)
     oracle_all(ctx, o)
-    return merge(s_m, o)
+    fam = []
+    import importlib
+
+    for mod, _props, sname in FAMILIES:
+        m = importlib.import_module("." + mod, __package__)
+        sf = Suite(ctx, sname, model_canon=getattr(m, "canon", None))
+        m.model_suite(ctx, sf)
+        fam.append(sf)
+    return merge(s_m, o, *fam)
 
 
 def search(ctx, broken, seeds):
